@@ -353,7 +353,7 @@ Section Engine.
             match superstep r g st' pv rd with
             | (SOk st'', calls) => run_loop r k g pv st'' (log ++ [calls])
             | (SErr e p, calls) => (RFailed e p, log ++ [calls])
-            | (SPause p s, calls) => (RPaused p s, log ++ [calls])
+            | (SPause p _, calls) => (RPaused p st', log ++ [calls])   (* the runner attaches the PRE-step state *)
             end
         end
     end.
